@@ -65,10 +65,39 @@ func genC05(g *Gen, n int) {
 	for _, k := range []int{65535, 65536} {
 		g.Emit("zip.create "+hx("example.com/m")+" "+hx("v1.0.0")+" "+zipuFilesTok(c05LongName("example.com/m", "v1.0.0", k)), true, "name-length-limit")
 	}
+	for _, fs := range c05FixedLists() {
+		c05EmitCreate(g, "example.com/m", "v1.0.0", fs, "fixed")
+	}
 	for g.st.Ops < n {
 		fs := c05GenList(g)
 		mp, mv := zipuPickMod(g.Rand, 8)
-		out := g.Emit("zip.create "+hx(mp)+" "+hx(mv)+" "+zipuFilesTok(fs), true, "create")
+		c05EmitCreate(g, mp, mv, fs, "create")
+	}
+}
+
+// c05FixedLists: a case-variant pair for every ASCII letter (files and directories, both orders), and
+// small root LICENSE / go.mod files that come after more than 16 MiB of other content (zero bytes).
+func c05FixedLists() [][]*zipuFile {
+	var out [][]*zipuFile
+	gomod := &zipuFile{path: "go.mod", mode: 'r', size: 21, content: []byte("module example.com/m\n")}
+	for _, pr := range zipuFoldSweep() {
+		out = append(out, append([]*zipuFile{gomod}, c17PairFiles(pr)...))
+	}
+	zeros := func(p string, n int) *zipuFile { return &zipuFile{path: p, mode: 'r', size: int64(n), content: make([]byte, n)} }
+	small := func(p, c string) *zipuFile { return &zipuFile{path: p, mode: 'r', size: int64(len(c)), content: []byte(c)} }
+	out = append(out,
+		[]*zipuFile{zeros("big.bin", zipu16M+1), small("LICENSE", "abc")},
+		[]*zipuFile{zeros("big.bin", zipu16M+1), gomod},
+		[]*zipuFile{small("LICENSE", "abc"), gomod, zeros("big.bin", zipu16M+1)},
+		[]*zipuFile{zeros("a.bin", 5<<20), zeros("b.bin", 5<<20), zeros("c.bin", 5<<20), zeros("d/e.bin", 2<<20), small("LICENSE", "license text"), gomod, small("z.go", "package z\n")},
+		[]*zipuFile{zeros("a.bin", zipu16M), small("b.go", "x"), small("LICENSE", ""), small("sub/LICENSE", "abc")},
+	)
+	return out
+}
+
+func c05EmitCreate(g *Gen, mp, mv string, fs []*zipuFile, tag string) {
+	{
+		out := g.Emit("zip.create "+hx(mp)+" "+hx(mv)+" "+zipuFilesTok(fs), true, tag)
 		if strings.HasPrefix(out, "ok") {
 			// feed the produced archive back through CheckZip and Unzip on both sides
 			data, err := zipuCreate(module.Version{Path: mp, Version: mv}, fs)
@@ -96,9 +125,18 @@ func oracleC05(g *Gen, n int) {
 			}
 		}
 	}
+	for _, fs := range c05FixedLists() {
+		c05Check(g, "example.com/m", "v1.0.0", fs)
+	}
 	for i := 0; i < n; i++ {
-		fs := c05GenList(g)
 		mp, mv := zipuPickMod(g.Rand, 5)
+		c05Check(g, mp, mv, c05GenList(g))
+	}
+}
+
+// c05Check states the property for one module version and file list.
+func c05Check(g *Gen, mp, mv string, fs []*zipuFile) {
+	for once := true; once; once = false {
 		m := module.Version{Path: mp, Version: mv}
 		line := "zip.create " + hx(mp) + " " + hx(mv) + " " + zipuFilesTok(fs)
 		data, cerr := zipuCreate(m, fs)
